@@ -49,7 +49,15 @@ Inductive cop :=
 (* follow-up staking transactions; `ans` = what the validator side of the real chain answered *)
 | CDelegate (a v : addr) (amt : Z) (ans : vans)
 | CUndelegate (a v : addr) (shares : Z) (ans : vans)
-| CWithdraw (a v : addr) (ans : vans).
+| CWithdraw (a v : addr) (ans : vans)
+| CRedelegate (a v w : addr) (shares : Z) (ans1 ans2 : vans).
+
+(* two answers in sequence: the environment is the list of answers still to be given *)
+Definition ask_seq (e : list vans) (_ : query) : vans :=
+  match e with x :: _ => x | [] => Build_vans 0 (Build_start_rec 0 0 0) 0 true 0 0 0 end.
+Definition next_seq (e : list vans) (_ : query) : list vans := tl e.
+Definition drop_env' (o : outcome (list vans * state)) : outcome state :=
+  match o with Ok x => Ok (snd x) | Err e => Err e | Panic => Panic end.
 
 Definition VA := Build_vans.
 Definition ask_obs (e : vans) (_ : query) : vans := e.
@@ -78,6 +86,7 @@ Definition model_step (s : state) (o : cop) : outcome state :=
   | CDelegate a v amt ans => drop_env (f_delegate vans ask_obs next_obs ans s a v amt)
   | CUndelegate a v sh ans => drop_env (f_undelegate vans ask_obs next_obs ans s a v sh)
   | CWithdraw a v ans => drop_env (f_withdraw vans ask_obs next_obs ans s a v)
+  | CRedelegate a v w sh ans1 ans2 => drop_env' (f_redelegate (list vans) ask_seq next_seq [ans1; ans2] s a v w sh)
   end.
 
 (* ---------- equality of states as sets of records ---------- *)
@@ -154,7 +163,7 @@ Definition mig_kept (a b : state) : bool :=
   seteq (paireq Z.eqb uniteq) (dir_to (mig a)) (dir_to (mig b)).
 
 Definition mig_mismatch (c : mig_case) : bool :=
-  negb (wfb (mc_pre c) && qcoverb (mc_pre c) && govwfb (mc_pre c) && balposb (mc_pre c)) ||
+  negb (wfb (mc_pre c) && qcoverb (mc_pre c) && govwfb (mc_pre c) && balposb (mc_pre c) && idxallb (mc_pre c)) ||
   match model_step (mc_pre c) (mc_op c), mc_obs c with
   | Ok s', OOk =>
       match mc_op c with
